@@ -6,6 +6,8 @@ CONSTANTS MaxVer = 1000000
           TornHeader = FALSE
           SyncBeforeFlip = TRUE
           PickNewer = TRUE
+          SavepointTwoPhase = FALSE
+          SavepointPreFlush = TRUE
 INVARIANT TraceInv
 POSTCONDITION TraceAccepted
 CHECK_DEADLOCK FALSE
